@@ -8,7 +8,8 @@ Reads from /repo/src (current working tree):
               and the `InOrder` block as a statement list;
   * fn_mocker.rs `FnMocker::find_call_pattern_for_call_order` — how the first owning pattern is looked up (three spellings known);
   * counter.rs `CallCounter::fetch_add`, call_pattern.rs `CallPattern::next_responder` — the match counter's bump and which value selects the responder;
-  * state.rs  `SharedState::bump_ordered_call_index` — the atomic operation, its increment and ordering.
+  * state.rs  `SharedState::bump_ordered_call_index` — the atomic operation, its increment and ordering;
+              `SharedState::find_ordered_expected_call_pattern_debug` — which pattern an out-of-order call was expected to hit.
 The vocabulary and its interpreters are in `Model/ScanSkel.lean`; `Props/C01.lean` and `Props/C04.lean` prove the
 interpreted skeletons equal to the hand-written model's `scan` / ordered branch (so a source change that alters the
 selection rule breaks a theorem; the check then searches for a failing input through the correspondence run).
@@ -314,6 +315,34 @@ def find_skel(fm):
     return False, True, [], True
 
 
+def expected_skel(stt):
+    """`SharedState::find_ordered_expected_call_pattern_debug`: (recognised, over, shape, skips, usesFind, yields)"""
+    body = fn_body(stt, 'find_ordered_expected_call_pattern_debug')
+    if body is None:
+        return False, True, '.findMap', True, True, True
+    flat = re.sub(r'\s+', '', body)
+    skip_rx = r'iffn_mocker\.pattern_match_mode!=PatternMatchMode::InOrder\{%s;?\}'
+    m = re.fullmatch(r'(self\.fn_mockers\.values\(\))\.find_map\(\|fn_mocker\|\{(.*)\}\)', flat, flags=re.S)
+    if m:
+        inner = m.group(2)
+        skips = re.match(skip_rx % 'returnNone', inner) is not None
+        uses = re.search(r'let\((\w+),_\)=fn_mocker\.find_call_pattern_for_call_order\(ordered_call_index\)\?;', inner)
+        yields = bool(uses) and inner.endswith(f'Some(fn_mocker.debug_pattern({uses.group(1)}))')
+        return True, True, '.findMap', skips, bool(uses), yields
+    m = re.fullmatch(r'forfn_mockerin(self\.fn_mockers\.values\(\))\{(.*)\}None', flat, flags=re.S)
+    if m:
+        inner = m.group(2)
+        skips = re.match(skip_rx % 'continue', inner) is not None
+        uses = re.search(r'ifletSome\(\((\w+),_\)\)=fn_mocker\.find_call_pattern_for_call_order\(ordered_call_index\)\{returnSome\(fn_mocker\.debug_pattern\(\1\)\);?\}', inner)
+        return True, True, '.forLoop', skips, bool(uses), bool(uses)
+    m = re.fullmatch(r'(self\.fn_mockers\.values\(\))\.filter\(\|fn_mocker\|(.*?)\)\.find_map\(\|fn_mocker\|\{?(.*?)\}?\)', flat, flags=re.S)
+    if m:
+        skips = m.group(2) == 'fn_mocker.pattern_match_mode==PatternMatchMode::InOrder'
+        uses = re.fullmatch(r'fn_mocker\.find_call_pattern_for_call_order\(ordered_call_index\)\.map\(\|\((\w+),_\)\|fn_mocker\.debug_pattern\(\1\)\)', m.group(3))
+        return True, True, '.filterFindMap', skips, bool(uses), bool(uses)
+    return False, True, '.findMap', True, True, True
+
+
 def main():
     notes = []
     ev = strip(open(os.path.join(ROOT, 'eval.rs')).read())
@@ -396,6 +425,9 @@ def main():
     if not rec_nr:
         nr_old = True
         notes.append('UNRECOGNISED shape of CallPattern::next_responder: fallback')
+    rec_exp, e_over, e_shape, e_skips, e_uses, e_yields = expected_skel(stt)
+    if not rec_exp:
+        notes.append('UNRECOGNISED shape of SharedState::find_ordered_expected_call_pattern_debug: fallback, C04_source_expected vacuous')
     b = lambda x: 'true' if x else 'false'
     lines = [
         'import Unimock.Model.ScanSkel',
@@ -421,6 +453,9 @@ def main():
         f'def countBumpSkel : BumpSkel := {{ op := {ATOM.get(c_op, ".other")}, delta := {c_delta}, seqCst := {b(c_seq)} }}',
         '/-- `CallPattern::next_responder` looks the responder up by the value `fetch_add` RETURNS (the count before this call) -/',
         f'def nextResponderByOldCount : Bool := {b(nr_old)}',
+        f'def recognised_expected : Bool := {b(rec_exp)}',
+        '/-- `SharedState::find_ordered_expected_call_pattern_debug` -/',
+        f'def expectedSkel : ExpSkel := {{ overMockers := {b(e_over)}, shape := {e_shape}, skipsUnordered := {b(e_skips)}, usesFind := {b(e_uses)}, yieldsFound := {b(e_yields)} }}',
         f'def recognised_find : Bool := {b(rec_find)}',
         '/-- `FnMocker::find_call_pattern_for_call_order` (its ownership test is `Generated.ownsSrc`, translate_counter.py) -/',
         f'def findSkel : FindSkel := {{ overCallPatterns := {b(f_over)}, adaptors := [{", ".join(f_adapt)}], ownIndex := {b(f_own)} }}',
